@@ -64,6 +64,13 @@ def hostile_configs(sentinel: str) -> List[gen.Spec]:
         sp.config, sp.family, sp.label = cfg, "hostile", f"hostile-id-{i}"
         sp.actions, sp.guards, sp.missing, sp.events = [], [], [], None
         out.append(sp)
+    # hostile EVENT names (the runner's simulation sends them)
+    cfg = {"id": "m", "initial": "a", "states": {"a": {"on": {"E\nV": "b", 'Q"uote': "b", "T'''riple": "b", "back\\slash": "b",
+                                                            "#hash": "b", "{brace}": "b"}}, "b": {"on": {"BACK": "a"}}}}
+    sp = gen.Spec.__new__(gen.Spec)
+    sp.config, sp.family, sp.label = cfg, "hostile", "hostile-events"
+    sp.actions, sp.guards, sp.missing, sp.events = [], [], [], None
+    out.append(sp)
     # names that collide after normalisation
     cfg = {"id": "m", "initial": "a", "states": {"a": {"entry": ["doIt", "do_it", "do-it", "do it", "DoIt"], "on": {"E": "b"}}, "b": {}}}
     sp = gen.Spec.__new__(gen.Spec)
@@ -394,7 +401,7 @@ def jobs_for(tier: str, seed: int) -> List[dict]:
     host = hostile_configs("@@SENTINEL@@")
     if q:
         rng.shuffle(host)
-        host = host[:7] + [h for h in host if h.label == "colliding-names"][:1]
+        host = host[:7] + [h for h in host if h.label in ("colliding-names", "hostile-events")]
     specs += host + stately_corpus(6 if q else 104, rng)
     jobs = []
     n = 0
